@@ -29,6 +29,28 @@ Lemma mutex_ops_pinned :
    ("futex_wake", "__ulock_wake", "")].
 Proof. reflexivity. Qed.
 
+(** The futex of the model is a PROCESS-SHARED futex on the mutex word: the mutex
+    lives in shared memory that every mapping places at a different virtual
+    address, so [FUTEX_WAIT]/[FUTEX_WAKE] must be issued without
+    [FUTEX_PRIVATE_FLAG] and on the address of [key].  The model's [waitset] is
+    one queue for all threads whatever mapping they use; that is only what the
+    code does if the system-call sites are exactly these (every argument
+    expression of every futex / ulock call, the libc names they resolve to, and
+    the ulock operation constants, regenerated from mutex.rs on every run). *)
+Definition futex_shared_on_key_stmt : Prop :=
+  futex_calls =
+  [("sys_lock", "futex_wait", ["&self.key"; "Self::MUTEX_SLEEPING"]);
+   ("sys_unlock", "futex_wake", ["&self.key"; "1"]);
+   ("futex", "syscall", ["SYS_futex"; "uaddr"; "futex_op"; "val"; "timeout"; "uaddr2"; "val3"]);
+   ("futex_wait", "futex", ["ptr::from_ref::<AtomicU32>(uaddr)"; "FUTEX_WAIT"; "val"; "ptr::null_mut()"; "ptr::null_mut()"; "0"]);
+   ("futex_wake", "futex", ["ptr::from_ref::<AtomicU32>(uaddr)"; "FUTEX_WAKE"; "cnt"; "ptr::null_mut()"; "ptr::null_mut()"; "0"]);
+   ("futex_wait", "__ulock_wait", ["UL_COMPARE_AND_WAIT|ULF_NO_ERRNO"; "ptr::from_ref::<AtomicU32>(addr).cast::<u32>().cast_mut().cast::<c_void>()"; "u64::from(val)"; "0"]);
+   ("futex_wake", "__ulock_wake", ["UL_COMPARE_AND_WAIT|ULF_NO_ERRNO"; "ptr::from_ref::<AtomicU32>(addr).cast::<u32>().cast_mut().cast::<c_void>()"; "u64::from(cnt)"])]
+  /\ futex_libc_imports = ["FUTEX_WAIT"; "FUTEX_WAKE"; "SYS_futex"; "c_int"; "syscall"; "timespec"]
+  /\ ulock_consts = ["UL_COMPARE_AND_WAIT=1"; "ULF_NO_ERRNO=0x01000000"].
+Lemma futex_shared_on_key_proof : futex_shared_on_key_stmt.
+Proof. repeat split; reflexivity. Qed.
+
 (** A thread that is awake inside [sys_lock] and is certain to leave the mutex
     word at SLEEPING when it acquires (or to wake a sleeper): the carriers of a
     pending wake-up. *)
